@@ -2,304 +2,517 @@
 import ast
 
 from ..core import Rule, AnalysisError, node_src
-from ..engine import pyflow
 from ..engine.pyindex import walk_no_nested, is_self_attr
+from ..rules import sC49
 
 ID = 'C49'
-TECHNIQUE = 'inductive-invariant obligations checked on the AST of StringIOTree and CCodeWriter: evaluation-order of readers, must-precede dataflow (commit before append), rebinding discipline, who-may-write call graph'
-DECIDES = ('the four structural obligations that make "content(T) = concat(children) + own stream" (and the same for markers) an inductive invariant: '
-           '(a) every reader of a StringIOTree visits prepended_children, recursively through the same reader, before its own stream/markers; '
-           '(b) insert/insertion_point commit() the pending stream on every path before appending a child; '
-           '(c) every rebinding of self.stream rebinds the cached self.write to the new stream and hands over or resets self.markers, commit() hands the old markers to the child that receives the old stream; '
-           '(d) only _write_to_buffer writes to a C code buffer, text containing a newline reaches it only through _write_lines, which first extends markers by s.count("\\n"); nobody else mutates .markers/.stream.')
-NOT_DECIDED = 'nothing further for the buffer itself; the history quantifier is discharged by the invariant argument (stated as the rule applied, not a proof of behaviour); uses of the buffer by the rest of the compiler are not covered.'
+TECHNIQUE = ('symbolic evaluation of every StringIOTree method on one symbolic tree (unknown children, unknown pending text and markers; loops over '
+             'children generalised from a generic element with the readers as induction hypothesis) compared with the list-of-fragments specification; '
+             'linear-form newline accounting of the C code writers; def-use of the buffer handed to new writers')
+DECIDES = ('with content(T) = concat(content(children)) + own stream and marks(T) likewise: '
+           '(a) _collect_in / copyto / getvalue return content(T), allmarkers returns marks(T), empty() is "own stream empty and every child empty", none of them changes the tree; '
+           '(b) insert(t) yields content(T) + content(t) and insertion_point() yields content(T) + <new empty tree>, same for the markers; '
+           '(c) commit() keeps content and marks, leaves nothing pending and leaves self.write bound to the current stream; reset() / __init__ produce the empty tree; '
+           '(d) in the C code writers (CCodeWriter family) on every path: newlines written to the buffer = markers recorded, except in private raw writers that pass on '
+           'exactly their argument and are only called with newline-free text or from accounted methods; nobody else mutates .markers/.stream/.prepended_children; '
+           '(e) insertion_point() of every code writer class (and of wrappers holding a writer) builds the new object on self.buffer.insertion_point() / self.writer.insertion_point(), resolved through create_new() and __init__ of each subclass; insert(w) calls self.buffer.insert(w.buffer); '
+           '(f) the writers stored in GlobalState.parts are insertion points of the root writer created while iterating the layout list itself.')
+NOT_DECIDED = ('the history quantifier is discharged by the invariant argument (stated as the rule applied, not a proof of behaviour); which source position a marker names '
+               '(last_marked_pos bookkeeping) and the uses of the buffer by the rest of the compiler are not covered.')
 
-CHILDREN = 'prepended_children'
-READERS = ('_collect_in', 'copyto', 'allmarkers')
+READERS = ('_collect_in', 'copyto', 'getvalue', 'allmarkers', 'empty')
+INSERTERS = ('insert', 'insertion_point')
+MUTATORS = ('commit', 'reset', '__init__')
+STATE_ATTRS = ('prepended_children', 'stream', 'write', 'markers')
+
+MUTATIONS = [
+    # every entry is stored with its patch under /verif/mutants/C49/<name>/ (replayed by the thorough tier)
+    ('Cython/StringIOTree.py', 'copyto-own-first, getvalue-own-only, allmarkers-own-first, allmarkers-flat, empty-any-child, empty-ignores-children, collect-skip-unwritten, collect-reversed', 'C49a'),
+    ('Cython/StringIOTree.py', 'insert-no-commit, inspoint-prepends, inspoint-commit-after, insert-front', 'C49b'),
+    ('Cython/StringIOTree.py', 'commit-keeps-markers, commit-markers-first-child, commit-guard-markers, commit-shares-stream, commit-stale-write, reset-keeps-children, init-shared-children', 'C49c'),
+    ('Cython/Compiler/Code.py', 'writelines-count-plus1, putln-raw-newline, write-branches-swapped, tracewrite-via-buffer, annotate-double-write', 'C49d'),
+    ('Cython/Compiler/Code.py, Annotate.py, Dataclass.py', 'ccw-insert-swapped, ccw-inspoint-detached, pyx-inspoint-detached, ccw-createnew-drops-buffer, ccw-init-ignores-buffer, annot-createnew-drops-buffer, templatecode-inspoint-detached', 'C49e'),
+    ('Cython/Compiler/Code.py', 'marker-wrong-pos: NOT reported (declined, see NOT_DECIDED)', ''),
+    ('Cython/Compiler/Code.py', 'gs-parts-new-writer, gs-hparts-sorted', 'C49f'),
+    ('*', 'behaviour preserving, silent: p-collect-skip-empty, p-copyto-tell, p-allmarkers-loop, p-commit-local-child, p-insert-alias, p-reset-init, p-writelines-local-count, '
+          'p-write-early-return, p-indent-local, p-ccw-inspoint-local, writelines-marker-after, p-empty-loop, p-gs-parts-enumerate', ''),
+]
 
 
-def _events(fn):
-    """(line, col, kind, node) for uses of children / own stream / own markers, with local aliases resolved."""
-    alias = {}
-    for n in walk_no_nested(fn):
-        if isinstance(n, ast.Assign) and len(n.targets) == 1 and isinstance(n.targets[0], ast.Name) and is_self_attr(n.value):
-            alias[n.targets[0].id] = n.value.attr
-    ev = []
-    for n in walk_no_nested(fn):
-        kind = None
-        if is_self_attr(n):
-            kind = n.attr
-        elif isinstance(n, ast.Name) and isinstance(n.ctx, ast.Load) and n.id in alias:
-            kind = alias[n.id]
-        if kind in (CHILDREN, 'stream', 'markers'):
-            ev.append((n.lineno, n.col_offset, kind, n))
-    # the alias definition itself is not a *use* in evaluation order of the result
-    ev = [e for e in ev if not any(isinstance(p, ast.Assign) and p.value is e[3] and isinstance(p.targets[0], ast.Name)
-                                   for p in walk_no_nested(fn))]
-    return sorted(ev, key=lambda e: e[:2])
+def _methods(cls):
+    return dict(cls.methods)
 
 
-def _reader_check(fn):
-    """-> list of problems for one reader method."""
-    problems = []
-    ev = _events(fn)
-    kinds = [e[2] for e in ev]
-    own = 'markers' if fn.name == 'allmarkers' else 'stream'
-    if CHILDREN not in kinds:
-        problems.append('does not visit prepended_children at all')
-    if own not in kinds:
-        problems.append('does not read its own %s' % own)
-    if problems:
-        return problems
-    # evaluation order: every child use precedes the first own use.  For a `return A + B` expression and for
-    # statement sequences, source position order is evaluation order.
-    first_own = min(i for i, k in enumerate(kinds) if k == own)
-    last_child = max(i for i, k in enumerate(kinds) if k == CHILDREN)
-    if last_child > first_own:
-        problems.append('reads its own %s (line %d) before prepended_children (line %d): children are written *before* the stream content'
-                        % (own, ev[first_own][0], ev[last_child][0]))
-    # recursion through the same reader on each child
-    rec = False
-    for n in walk_no_nested(fn):
-        if isinstance(n, ast.Call) and isinstance(n.func, ast.Attribute) and n.func.attr == fn.name and \
-                isinstance(n.func.value, ast.Name) and n.func.value.id != 'self':
-            rec = True
-    if not rec:
-        problems.append('does not recurse into children through %s() (grand-children would be lost)' % fn.name)
-    # the recursion must happen for EVERY child: not under a condition inside the loop (a child whose own stream is
-    # empty may still hold written grand-children)
-    for loop in walk_no_nested(fn):
-        if not isinstance(loop, ast.For):
-            continue
-        for inner in ast.walk(loop):
-            if isinstance(inner, (ast.If, ast.IfExp, ast.Continue, ast.Break)) and inner is not loop:
-                guarded = isinstance(inner, (ast.Continue, ast.Break)) or any(
-                    isinstance(c, ast.Call) and isinstance(c.func, ast.Attribute) and c.func.attr == fn.name for c in ast.walk(inner))
-                if guarded and any(isinstance(c, ast.Call) and isinstance(c.func, ast.Attribute) and c.func.attr == fn.name for c in ast.walk(loop)):
-                    problems.append('visits a child only conditionally (line %d): a child with an empty own stream can still contain written descendants' % inner.lineno)
-                    break
-    for comp in walk_no_nested(fn):
-        if isinstance(comp, ast.comprehension) and comp.ifs and any(e[3] is x for e in ev if e[2] == CHILDREN for x in ast.walk(comp.iter)):
-            problems.append('filters children in a comprehension condition')
-    # every for-loop over children iterates all of them (no slicing / reversed)
-    for n in walk_no_nested(fn):
-        it = None
-        if isinstance(n, ast.For):
-            it = n.iter
-        elif isinstance(n, ast.comprehension):
-            it = n.iter
-        if it is not None and any(e[3] is x for e in ev if e[2] == CHILDREN for x in ast.walk(it)):
-            if not (is_self_attr(it) or isinstance(it, ast.Name)):
-                problems.append('iterates children through %r instead of the plain list (order/coverage may change)' % node_src(it))
+def _check(r, methods, clsname, name, rel, skip=False):
+    fn = methods[name]
+    if skip:
+        r.info('%s.%s not evaluated: __init__ does not produce a well-formed tree (reported by C49c)' % (clsname, name))
+        return []
+    try:
+        problems = sC49.check_method(methods, clsname, name)
+    except sC49.Giveup as e:
+        raise AnalysisError('C49: the symbolic evaluation of %s.%s met a construct it does not model (%s)' % (clsname, name, e))
+    for kind, msg in problems:
+        r.violate('%s.%s:%s' % (clsname, name, kind), rel, fn.lineno, '%s.%s: %s' % (clsname, name, msg))
     return problems
 
 
-def run(ctx):
+def _control(src, name):
+    tree = ast.parse(src)
+    cls = tree.body[0]
+    methods = {n.name: n for n in cls.body if isinstance(n, ast.FunctionDef)}
+    try:
+        return bool(sC49.check_method(methods, cls.name, name))
+    except sC49.Giveup:
+        return False
+
+
+_PC_BASE = '''class T:
+    def __init__(self, stream=None):
+        self.prepended_children = []
+        if stream is None:
+            stream = StringIO()
+        self.stream = stream
+        self.write = stream.write
+        self.markers = []
+    def commit(self):
+        if self.stream.tell():
+            self.prepended_children.append(T(self.stream))
+            self.prepended_children[-1].markers = self.markers
+            self.markers = []
+            self.stream = StringIO()
+            self.write = self.stream.write
+'''
+
+
+def rule_tree(ctx):
     ix = ctx.index
-    rules = []
     sio = ix.cls('StringIOTree', 'StringIOTree')
-
-    # ---------------------------------------------------------------- (a) readers
-    ra = Rule('C49a', 'readers of StringIOTree visit children (recursively) before own stream/markers', floor=4)
-    for name in READERS + ('empty', 'getvalue'):
-        if name not in sio.methods:
+    methods = _methods(sio)
+    rel = sio.module.rel
+    for name in READERS + INSERTERS + MUTATORS:
+        if name not in methods:
             raise AnalysisError('StringIOTree.%s vanished' % name)
+    init_problems = []
+    try:
+        init_problems = sC49.check_method(methods, sio.name, '__init__')
+    except sC49.Giveup:
+        pass
+    ra = Rule('C49a', 'readers of StringIOTree return content(children) + own stream (markers likewise) and empty() is the conjunction over stream and children', floor=5)
     for name in READERS:
-        fn = sio.methods[name]
-        ra.inst('StringIOTree.' + name, sample='StringIOTree.%s: %s' % (name, [e[2] for e in _events(fn)]))
-        for p in _reader_check(fn):
-            ra.violate('StringIOTree.%s:%s' % (name, p.split()[0] + p.split()[1]), sio.module.rel, fn.lineno, '%s %s' % (name, p))
-    # getvalue must go through _collect_in (or be a reader itself)
-    fn = sio.methods['getvalue']
-    ra.inst('StringIOTree.getvalue')
-    if not any(isinstance(n, ast.Call) and isinstance(n.func, ast.Attribute) and n.func.attr in ('_collect_in', 'copyto') and
-               isinstance(n.func.value, ast.Name) and n.func.value.id == 'self' for n in walk_no_nested(fn)):
-        for p in _reader_check(fn):
-            ra.violate('StringIOTree.getvalue:' + p.split()[0], sio.module.rel, fn.lineno, 'getvalue ' + p)
-    # empty() must consider both the stream and all children
-    fn = sio.methods['empty']
-    ra.inst('StringIOTree.empty')
-    kinds = {e[2] for e in _events(fn)}
-    if not {'stream', CHILDREN} <= kinds:
-        ra.violate('StringIOTree.empty:coverage', sio.module.rel, fn.lineno, 'empty() ignores %s' % sorted({'stream', CHILDREN} - kinds))
-    pc = ast.parse("def copyto(self, target):\n    target.write(self.stream.getvalue())\n    for c in self.prepended_children:\n        c.copyto(target)\n").body[0]
-    ra.positive_control(any('before prepended_children' in p for p in _reader_check(pc)), 'reader writing own stream first')
-    rules.append(ra)
+        ra.inst('StringIOTree.' + name, sample='StringIOTree.%s evaluated symbolically against content(T)/marks(T)' % name)
+        _check(ra, methods, sio.name, name, rel, skip=bool(init_problems))
+    ra.positive_control(_control(_PC_BASE.replace('class T', 'class T') + '''    def copyto(self, target):
+        target.write(self.stream.getvalue())
+        for c in self.prepended_children:
+            c.copyto(target)
+''', 'copyto') and _control(_PC_BASE + '''    def _collect_in(self, out):
+        for x in self.prepended_children:
+            if x.stream.tell():
+                x._collect_in(out)
+        out.append(self.stream.getvalue())
+''', '_collect_in'), 'reader writing own stream first / skipping children with an empty own stream')
 
-    # ---------------------------------------------------------------- (b) commit before append
-    rb = Rule('C49b', 'every append to prepended_children outside commit() is preceded by self.commit() on all paths', floor=2)
+    rb = Rule('C49b', 'insert(t) appends content(t) after everything written so far; insertion_point() leaves a new empty tree at the current position', floor=2)
+    for name in INSERTERS:
+        rb.inst('StringIOTree.' + name, sample='StringIOTree.%s evaluated symbolically' % name)
+        _check(rb, methods, sio.name, name, rel, skip=bool(init_problems))
+    rb.positive_control(_control(_PC_BASE + '''    def insert(self, t):
+        if self.markers:
+            self.commit()
+        self.prepended_children.append(t)
+''', 'insert'), 'conditional commit before appending a child')
 
-    def tr(node, state):
-        s = set(state)
-        for c in pyflow.calls_in(node):
-            if isinstance(c.func, ast.Attribute) and c.func.attr == 'commit' and isinstance(c.func.value, ast.Name) and c.func.value.id == 'self':
-                s.add('committed')
-            if isinstance(c.func, ast.Attribute) and c.func.attr in ('append', 'insert', 'extend') and is_self_attr(c.func.value) \
-                    and c.func.value.attr == CHILDREN and 'committed' not in s:
-                s.add(('BAD', c.lineno))
-        # writes to the own stream after commit invalidate it
-        for c in pyflow.calls_in(node):
-            if isinstance(c.func, ast.Attribute) and c.func.attr == 'write' and 'committed' in s and \
-                    (is_self_attr(c.func.value) and c.func.value.attr == 'stream' or (isinstance(c.func.value, ast.Name) and c.func.value.id == 'self')):
-                s.discard('committed')
-        return frozenset(s)
-
-    def check_b(fn):
-        o = pyflow.Flow(tr).run(fn)
-        bad = set()
-        for st in o.normal | o.returns | o.raises:
-            bad |= {f for f in st if isinstance(f, tuple) and f[0] == 'BAD'}
-        return bad
-    n_app = 0
-    for name, fn in sio.methods.items():
-        appends = [n for n in walk_no_nested(fn) if isinstance(n, ast.Call) and isinstance(n.func, ast.Attribute) and
-                   n.func.attr in ('append', 'insert', 'extend') and is_self_attr(n.func.value) and n.func.value.attr == CHILDREN]
-        if not appends or name == 'commit':
+    rc = Rule('C49c', 'commit() keeps content and markers, leaves nothing pending and rebinds self.write; reset()/__init__ give the empty tree', floor=3)
+    for name in MUTATORS:
+        rc.inst('StringIOTree.' + name, sample='StringIOTree.%s evaluated symbolically' % name)
+        _check(rc, methods, sio.name, name, rel, skip=bool(init_problems) and name != '__init__')
+    rc.positive_control(_control(_PC_BASE.replace('            self.prepended_children[-1].markers = self.markers\n', ''), 'commit'), 'commit dropping the pending markers')
+    # every other method of the class must not touch the state (a new mutator needs a specification)
+    for name, fn in methods.items():
+        if name in READERS + INSERTERS + MUTATORS:
             continue
-        rb.inst('StringIOTree.' + name, sample='StringIOTree.%s appends a child' % name)
-        for b in check_b(fn):
-            rb.violate('StringIOTree.%s:append-without-commit' % name, sio.module.rel, b[1],
-                       '%s appends to prepended_children on a path where the pending stream content was not commit()ted: '
-                       'text written earlier would appear AFTER the inserted child' % name)
-    for required in ('insert', 'insertion_point'):
-        if required not in sio.methods:
-            raise AnalysisError('StringIOTree.%s vanished' % required)
-    pc = ast.parse("def insert(self, t):\n    if self.stream.tell() > 100:\n        self.commit()\n    self.prepended_children.append(t)\n").body[0]
-    rb.positive_control(bool(check_b(pc)), 'conditional commit')
-    rules.append(rb)
+        for n in walk_no_nested(fn):
+            touched = None
+            if isinstance(n, ast.Attribute) and n.attr in STATE_ATTRS and isinstance(n.ctx, (ast.Store, ast.Del)):
+                touched = n
+            elif isinstance(n, ast.Call) and isinstance(n.func, ast.Attribute) and isinstance(n.func.value, ast.Attribute) and n.func.value.attr in STATE_ATTRS \
+                    and n.func.attr in ('append', 'extend', 'insert', 'pop', 'clear', 'remove', 'sort', 'reverse', 'write', 'truncate', 'seek'):
+                touched = n
+            elif isinstance(n, ast.Call) and isinstance(n.func, ast.Attribute) and is_self_attr(n.func) and n.func.attr in ('write',) + MUTATORS + INSERTERS:
+                touched = n
+            if touched is not None:
+                raise AnalysisError('StringIOTree.%s changes the tree (%s) but has no specification in the checker' % (name, node_src(touched, 60)))
+    return [ra, rb, rc]
 
-    # ---------------------------------------------------------------- (c) rebinding discipline
-    rc = Rule('C49c', 'rebinding self.stream rebinds self.write to the same stream and hands over/resets self.markers; commit() moves stream and markers to one child', floor=3)
-    for name, fn in sio.methods.items():
-        stores = [n for n in walk_no_nested(fn) if isinstance(n, ast.Assign) and any(is_self_attr(t) and t.attr == 'stream' for t in n.targets)]
-        if not stores:
-            continue
-        key = 'StringIOTree.' + name
-        rc.inst(key, sample=key + ' rebinds self.stream')
-        last = max(stores, key=lambda n: n.lineno)
-        wr = [n for n in walk_no_nested(fn) if isinstance(n, ast.Assign) and any(is_self_attr(t) and t.attr == 'write' for t in n.targets)]
-        ok = False
-        for w in wr:
-            v = w.value
-            if w.lineno > last.lineno and isinstance(v, ast.Attribute) and v.attr == 'write':
-                src = v.value
-                if (is_self_attr(src) and src.attr == 'stream') or (isinstance(src, ast.Name) and isinstance(last.value, ast.Name) and src.id == last.value.id):
-                    ok = True
-        if not ok:
-            rc.violate(key + ':write', sio.module.rel, last.lineno,
-                       '%s rebinds self.stream but does not afterwards rebind the cached self.write to the new stream: later writes go into the old (already committed) stream' % name)
-        mk = [n for n in walk_no_nested(fn) if isinstance(n, ast.Assign) and any(is_self_attr(t) and t.attr == 'markers' for t in n.targets)]
-        if not mk:
-            rc.violate(key + ':markers', sio.module.rel, last.lineno,
-                       '%s rebinds self.stream but keeps self.markers: the markers no longer describe the (new, empty) stream' % name)
-    if 'commit' not in sio.methods or 'reset' not in sio.methods:
-        raise AnalysisError('StringIOTree.commit/reset vanished')
-    fn = sio.methods['commit']
-    rc.inst('StringIOTree.commit:handover')
-    # commit: child = StringIOTree(self.stream) appended; child.markers = self.markers; then self.markers = [] ; then new stream
-    lines = {}
-    for n in walk_no_nested(fn):
-        if isinstance(n, ast.Call) and isinstance(n.func, ast.Name) and n.func.id == sio.name and n.args and is_self_attr(n.args[0]) and n.args[0].attr == 'stream':
-            lines['child'] = n.lineno
-        if isinstance(n, ast.Assign) and isinstance(n.targets[0], ast.Attribute) and n.targets[0].attr == 'markers' and not is_self_attr(n.targets[0]) \
-                and is_self_attr(n.value) and n.value.attr == 'markers':
-            lines['handover'] = n.lineno
-        if isinstance(n, ast.Assign) and is_self_attr(n.targets[0]) and n.targets[0].attr == 'markers':
-            lines['reset'] = n.lineno
-        if isinstance(n, ast.Assign) and is_self_attr(n.targets[0]) and n.targets[0].attr == 'stream':
-            lines['newstream'] = n.lineno
-    if 'child' not in lines:
-        rc.violate('StringIOTree.commit:child', sio.module.rel, fn.lineno, 'commit() no longer wraps the old self.stream into a child StringIOTree')
-    elif not ('handover' in lines and 'reset' in lines and lines['child'] <= lines['handover'] < lines['reset'] and lines['child'] < lines.get('newstream', 0)):
-        rc.violate('StringIOTree.commit:handover', sio.module.rel, fn.lineno,
-                   'commit() must give the old markers to the child that received the old stream before resetting self.markers (found %r): '
-                   'otherwise line markers drift relative to the text' % lines)
-    rules.append(rc)
 
-    # ---------------------------------------------------------------- (d) who may write
-    rd = Rule('C49d', 'only _write_to_buffer writes to a CCodeWriter buffer; newline-carrying text goes through _write_lines which extends markers by s.count("\\n") first; nobody else mutates .markers/.stream', floor=6)
-    code = ix.mod('Code')
+# ------------------------------------------------------------------------------------------------------------- (d)
+def rule_writers(ctx):
+    ix = ctx.index
+    sio = ix.cls('StringIOTree', 'StringIOTree')
+    rd = Rule('C49d', 'C code writers: newlines written to the buffer = markers recorded on every path (raw writers are private and only fed newline-free text); '
+                      'nobody else mutates .markers/.stream/.prepended_children', floor=5)
     ccw = ix.cls('Code', 'CCodeWriter')
     family = [ccw] + ix.subclasses(ccw)
-    for c in family:
-        for name, fn in c.methods.items():
-            for n in walk_no_nested(fn):
-                if isinstance(n, ast.Call) and isinstance(n.func, ast.Attribute) and n.func.attr == 'write' and \
-                        is_self_attr(n.func.value) and n.func.value.attr == 'buffer':
-                    key = '%s.%s' % (c.qual, name)
-                    rd.inst(key, sample=key + ' calls self.buffer.write')
-                    if name != '_write_to_buffer':
-                        rd.violate(key + ':raw-write', c.module.rel, n.lineno,
-                                   '%s writes to self.buffer directly, bypassing _write_lines: newlines in the text are not recorded in markers' % key)
-                if isinstance(n, ast.Call) and isinstance(n.func, ast.Attribute) and n.func.attr == '_write_to_buffer':
-                    key = '%s.%s->_write_to_buffer' % (c.qual, name)
-                    rd.inst(key, sample=key)
-                    if name == '_write_lines':
-                        continue
-                    arg = n.args[0] if n.args else None
-                    if name == 'write':
-                        # must be the else-branch of `if '\n' in s`
-                        ok = False
-                        for i in walk_no_nested(fn):
-                            if isinstance(i, ast.If) and isinstance(i.test, ast.Compare) and isinstance(i.test.left, ast.Constant) and i.test.left.value == '\n' \
-                                    and isinstance(i.test.ops[0], ast.In) and any(x is n for s2 in i.orelse for x in ast.walk(s2)) \
-                                    and any(isinstance(x, ast.Call) and isinstance(x.func, ast.Attribute) and x.func.attr == '_write_lines' for s2 in i.body for x in ast.walk(s2)):
-                                ok = True
-                        if not ok:
-                            rd.violate(key + ':unguarded', c.module.rel, n.lineno, "write() reaches _write_to_buffer without the `'\\n' in s` test routing multi-line text to _write_lines")
-                    else:
-                        consts = [x.value for x in ast.walk(arg) if isinstance(x, ast.Constant) and isinstance(x.value, str)] if arg is not None else []
-                        dyn = [x for x in ast.walk(arg) if isinstance(x, (ast.Name, ast.Attribute, ast.Call, ast.JoinedStr))] if arg is not None else [None]
-                        dyn = [x for x in dyn if not (isinstance(x, ast.Attribute) and x.attr == 'level') and not (isinstance(x, ast.Name) and x.id == 'self')]
-                        if any('\n' in s for s in consts) or dyn:
-                            rd.violate(key + ':maybe-newline', c.module.rel, n.lineno,
-                                       '%s passes text that may contain a newline straight to _write_to_buffer (markers not extended)' % key)
-    wl = ccw.methods.get('_write_lines')
-    if wl is None:
-        raise AnalysisError('CCodeWriter._write_lines vanished')
-    rd.inst('Code.CCodeWriter._write_lines:markers')
-    ext = None
-    for n in walk_no_nested(wl):
-        if isinstance(n, ast.Call) and isinstance(n.func, ast.Attribute) and n.func.attr == 'extend' and \
-                isinstance(n.func.value, ast.Attribute) and n.func.value.attr == 'markers':
-            ext = n
-    wcall = [n for n in walk_no_nested(wl) if isinstance(n, ast.Call) and isinstance(n.func, ast.Attribute) and n.func.attr == '_write_to_buffer']
-    if ext is None or not wcall:
-        rd.violate('Code.CCodeWriter._write_lines:markers', code.rel, wl.lineno, '_write_lines no longer extends buffer.markers before writing')
+    summaries = {}
+    reported = set()
+    verdict = {}
+    for _round in range(8):
+        changed = False
+        for c in family:
+            for name, fn in c.methods.items():
+                if not sC49.touches_buffer(fn, summaries):
+                    continue
+                key = '%s.%s' % (c.qual, name)
+                try:
+                    paths = sC49.method_balance(fn, summaries)
+                except sC49.Giveup as e:
+                    raise AnalysisError('C49d: %s: %s' % (key, e))
+                forms = [(f.under(facts), facts) for f, facts in paths]
+                params = [a.arg for a in fn.args.args][1:]
+                if all(f.zero() for f, _ in forms):
+                    verdict[key] = ('balanced', fn, c, None)
+                    if name in summaries and summaries[name][2] == key:
+                        del summaries[name]
+                        changed = True
+                    continue
+                raw = None
+                for f, _ in forms:
+                    if not f.zero() and not f.unk and not f.const and all(v == 1 for v in f.coefs.values()):
+                        cand = sC49.Form(0, f.coefs)
+                        if all(cand.under(facts).key() == g.key() for g, facts in forms):
+                            raw = cand
+                            break
+                if raw is not None and not name.startswith('_'):
+                    verdict[key] = ('raw', fn, c, raw)      # reported below; not propagated to its callers
+                elif raw is not None:
+                    verdict[key] = ('raw', fn, c, raw)
+                    prev = summaries.get(name)
+                    if prev is None or prev[1].key() != raw.key():
+                        if prev is not None and prev[2] != key:
+                            verdict[key] = ('override', fn, c, raw)
+                        else:
+                            summaries[name] = (params, raw, key)
+                            changed = True
+                else:
+                    worst = [f for f, _ in forms if not f.zero()][0]
+                    verdict[key] = ('unbalanced', fn, c, worst)
+        if not changed:
+            break
     else:
-        a = ext.args[0]
-        good = isinstance(a, ast.BinOp) and isinstance(a.op, ast.Mult) and any(
-            isinstance(x, ast.Call) and isinstance(x.func, ast.Attribute) and x.func.attr == 'count' and x.args and
-            isinstance(x.args[0], ast.Constant) and x.args[0].value == '\n' and isinstance(x.func.value, ast.Name) and x.func.value.id == wl.args.args[1].arg
-            for x in (a.left, a.right)) and any(isinstance(x, ast.List) and len(x.elts) == 1 for x in (a.left, a.right))
-        if not good:
-            rd.violate('Code.CCodeWriter._write_lines:count', code.rel, ext.lineno,
-                       'markers must be extended by exactly one entry per newline of the text written ([m] * s.count("\\n")); found %s' % node_src(a))
-        if ext.lineno > wcall[0].lineno:
-            rd.violate('Code.CCodeWriter._write_lines:order', code.rel, ext.lineno, 'markers are extended after the text is written')
-        # the same string is written
-        if not (wcall[0].args and isinstance(wcall[0].args[0], ast.Name) and wcall[0].args[0].id == wl.args.args[1].arg):
-            rd.violate('Code.CCodeWriter._write_lines:text', code.rel, wcall[0].lineno, '_write_lines writes a different string than the one it counted newlines in')
-    # nobody outside StringIOTree / _write_lines mutates .markers, .stream, .prepended_children
+        raise AnalysisError('C49d: newline accounting does not reach a fixpoint')
+    for key, (kind, fn, c, form) in sorted(verdict.items()):
+        rd.inst(key, sample='%s: %s%s' % (key, kind, '' if form is None else ' (' + form.text() + ')'))
+        if kind == 'unbalanced':
+            rd.violate(key + ':unrecorded-newline', c.module.rel, fn.lineno,
+                       '%s: on some path the newlines written to self.buffer minus the markers recorded is %s instead of 0 '
+                       '(text that may contain a newline reaches the buffer without _write_lines, or the marker count is not s.count("\\n")): '
+                       'the C-line -> source-line markers drift' % (key, form.text()))
+        elif kind == 'override':
+            rd.violate(key + ':override', c.module.rel, fn.lineno, '%s overrides a raw writer with a different newline balance (%s)' % (key, form.text()))
+        elif kind == 'raw' and not fn.name.startswith('_'):
+            rd.violate(key + ':public-raw-writer', c.module.rel, fn.lineno,
+                       '%s hands its argument to the buffer without recording markers for its newlines (balance %s) and is public: '
+                       'multi-line text written through it shifts all following markers' % (key, form.text()))
+    # call sites of private raw writers outside accounted self-calls
+    raw_names = {n for n, v in summaries.items()}
+    fam_fns = {id(fn) for c in family for fn in c.methods.values()}
+    for m in ix.modules.values():
+        for qn, owner, fn in ix.functions_of(m):
+            for n in walk_no_nested(fn):
+                if isinstance(n, ast.Call) and isinstance(n.func, ast.Attribute) and n.func.attr in raw_names:
+                    selfname = fn.args.args[0].arg if fn.args.args else None
+                    if id(fn) in fam_fns and isinstance(n.func.value, ast.Name) and n.func.value.id == selfname:
+                        continue
+                    arg_ok = len(n.args) == 1 and sC49.nl_of(n.args[0], {}, set()).zero()
+                    key = '%s.%s->%s' % (m.short, qn, n.func.attr)
+                    rd.inst(key, sample=key)
+                    if not arg_ok:
+                        rd.violate(key + ':raw-call', m.rel, n.lineno, '%s calls the raw writer %s() with text that may contain a newline (no markers recorded)' % (key, n.func.attr))
+                # direct buffer writes from outside the family on a code writer's buffer:  code.buffer.write(...)
+                if isinstance(n, ast.Call) and isinstance(n.func, ast.Attribute) and n.func.attr == 'write' and isinstance(n.func.value, ast.Attribute) \
+                        and n.func.value.attr == 'buffer' and id(fn) not in fam_fns and not (owner is not None and owner.name == 'PyxCodeWriter'):
+                    key = '%s.%s' % (m.short, qn)
+                    rd.inst(key + ':buffer.write', sample=key)
+                    if not (len(n.args) == 1 and sC49.nl_of(n.args[0], {}, set()).zero()):
+                        rd.violate(key + ':raw-write', m.rel, n.lineno, '%s writes to a code buffer directly, bypassing the marker accounting' % key)
+    if '_write_lines' not in ccw.methods:
+        raise AnalysisError('CCodeWriter._write_lines vanished')
+    pc = ast.parse("def w(self, s):\n    self.buffer.markers.extend([m] * len(s.splitlines()))\n    self.buffer.write(s)\n").body[0]
+    pc2 = ast.parse("def w(self, pos):\n    self.buffer.write(f'x({pos[1]:d},{self.goto(pos)})\\n')\n").body[0]
+    det = all(any(not f.under(facts).zero() for f, facts in sC49.method_balance(p, {})) for p in (pc, pc2))
+    rd.positive_control(det, 'marker count taken from splitlines(); f-string with a newline written raw')
+    # nobody outside StringIOTree / the accounted writer methods mutates .markers, .stream, .prepended_children
     for m in ix.modules.values():
         for qn, owner, fn in ix.functions_of(m):
             if owner is sio:
                 continue
             for n in walk_no_nested(fn):
                 tgt = None
-                if isinstance(n, ast.Attribute) and n.attr in ('markers', CHILDREN) and isinstance(n.ctx, (ast.Store, ast.Del)):
+                if isinstance(n, ast.Attribute) and n.attr in ('markers', 'prepended_children') and isinstance(n.ctx, (ast.Store, ast.Del)):
                     tgt = n
                 elif isinstance(n, ast.Call) and isinstance(n.func, ast.Attribute) and n.func.attr in ('append', 'extend', 'insert', 'pop', 'clear', 'remove', 'sort', 'reverse') \
-                        and isinstance(n.func.value, ast.Attribute) and n.func.value.attr in ('markers', CHILDREN):
+                        and isinstance(n.func.value, ast.Attribute) and n.func.value.attr in ('markers', 'prepended_children'):
                     tgt = n
-                elif isinstance(n, ast.Attribute) and n.attr == 'stream' and isinstance(n.ctx, ast.Store) and isinstance(n.value, ast.Attribute) and n.value.attr == 'buffer':
+                elif isinstance(n, ast.Attribute) and n.attr in ('stream', 'write') and isinstance(n.ctx, ast.Store) and isinstance(n.value, ast.Attribute) and n.value.attr == 'buffer':
                     tgt = n
                 if tgt is None:
                     continue
                 key = '%s.%s' % (m.short, qn)
                 rd.inst(key + ':mutates', sample=key + ' mutates ' + node_src(tgt, 60))
-                if not (owner is ccw and fn.name == '_write_lines'):
+                accounted = id(fn) in fam_fns and ('%s.%s' % (owner.qual, fn.name)) in verdict and isinstance(tgt, ast.Call)
+                if not accounted:
                     rd.violate(key + ':mutates-buffer-state', m.rel, n.lineno,
                                '%s mutates StringIOTree state (%s) from outside the buffer class' % (key, node_src(tgt, 60)))
-    rules.append(rd)
-    return rules
+    return rd
+
+
+# ------------------------------------------------------------------------------------------------------------- (e)
+def _single_assign(fn, name):
+    vals = []
+    for n in walk_no_nested(fn):
+        if isinstance(n, ast.Assign):
+            for t in n.targets:
+                if isinstance(t, ast.Name) and t.id == name:
+                    vals.append(n.value)
+                elif isinstance(t, (ast.Tuple, ast.List)):
+                    for i, x in enumerate(t.elts):
+                        if isinstance(x, ast.Name) and x.id == name:
+                            vals.append(n.value.elts[i] if isinstance(n.value, (ast.Tuple, ast.List)) and len(n.value.elts) == len(t.elts) else None)
+        elif isinstance(n, (ast.AugAssign, ast.AnnAssign, ast.For, ast.comprehension)) and any(isinstance(x, ast.Name) and x.id == name for x in ast.walk(n.target)):
+            vals.append(None)
+        elif isinstance(n, ast.NamedExpr) and n.target.id == name:
+            vals.append(None)
+    return vals[0] if len(vals) == 1 else None
+
+
+def _resolve(fn, e, depth=0):
+    while isinstance(e, ast.Name) and depth < 5:
+        v = _single_assign(fn, e.id)
+        if v is None:
+            break
+        e, depth = v, depth + 1
+    return e
+
+
+def _buffer_param(ix, cls, attr='buffer'):
+    """name and position (self not counted) of the __init__ parameter that becomes self.buffer"""
+    got = ix.find_method(cls, '__init__')
+    if got is None:
+        raise AnalysisError('%s has no __init__' % cls.qual)
+    owner, init = got
+    params = [a.arg for a in init.args.args][1:]
+    stores = [n for n in walk_no_nested(init) if isinstance(n, ast.Assign) and any(is_self_attr(t) and t.attr == attr for t in n.targets)]
+    if not stores:
+        # delegated to a base __init__:  Base.__init__(self, a, b, c)
+        for n in walk_no_nested(init):
+            if isinstance(n, ast.Call) and isinstance(n.func, ast.Attribute) and n.func.attr == '__init__' and n.args and isinstance(n.args[0], ast.Name) and n.args[0].id == init.args.args[0].arg:
+                base = ix.resolve_expr(owner.module, n.func.value)
+                if base is None or base[0] != 'class':
+                    continue
+                bname, bpos = _buffer_param(ix, base[1], attr)
+                if bname is None:
+                    return None, None
+                arg = None
+                if bpos + 1 < len(n.args):
+                    arg = n.args[bpos + 1]
+                for k in n.keywords:
+                    if k.arg == bname:
+                        arg = k.value
+                if isinstance(arg, ast.Name) and arg.id in params:
+                    return arg.id, params.index(arg.id)
+        raise AnalysisError('%s.__init__: cannot see which parameter becomes self.buffer' % cls.qual)
+    names = set()
+    for s in stores:
+        names |= {x.id for x in ast.walk(s.value) if isinstance(x, ast.Name)} & set(params)
+    if not names:
+        return None, None
+    if len(names) != 1:
+        raise AnalysisError('%s.__init__: self.buffer is built from %s' % (cls.qual, sorted(names)))
+    p = names.pop()
+    return p, params.index(p)
+
+
+def _ctor_buffer_arg(ix, cls, fn, call, depth=0, attr='buffer'):
+    """the argument expression of `call` (inside fn, a method of cls) that becomes the new writer's buffer; None if not supplied"""
+    if depth > 3:
+        raise AnalysisError('constructor forwarding too deep')
+    f = call.func
+    target_cls = None
+    if isinstance(f, ast.Call) and isinstance(f.func, ast.Name) and f.func.id == 'type' and len(f.args) == 1 and isinstance(f.args[0], ast.Name):
+        target_cls = cls
+    elif isinstance(f, ast.Attribute) and f.attr == '__class__' and isinstance(f.value, ast.Name):
+        target_cls = cls
+    elif isinstance(f, ast.Name):
+        got = ix.resolve_expr(cls.module, f)
+        if got is None or got[0] != 'class':
+            raise AnalysisError('cannot resolve constructor %s' % f.id)
+        target_cls = got[1]
+    elif isinstance(f, ast.Attribute) and isinstance(f.value, ast.Name) and f.value.id == fn.args.args[0].arg:
+        got = ix.find_method(cls, f.attr)
+        if got is None:
+            raise AnalysisError('%s.%s not found' % (cls.qual, f.attr))
+        fowner, fwd = got
+        rets = [n for n in walk_no_nested(fwd) if isinstance(n, ast.Return) and n.value is not None]
+        if len(rets) != 1:
+            raise AnalysisError('%s.%s: expected one return' % (fowner.qual, fwd.name))
+        inner = _resolve(fwd, rets[0].value)
+        if not isinstance(inner, ast.Call):
+            raise AnalysisError('%s.%s does not return a constructor call' % (fowner.qual, fwd.name))
+        inner_arg = _ctor_buffer_arg(ix, fowner, fwd, inner, depth + 1, attr)
+        inner_arg = _resolve(fwd, inner_arg) if inner_arg is not None else None
+        fparams = [a.arg for a in fwd.args.args][1:]
+        if not (isinstance(inner_arg, ast.Name) and inner_arg.id in fparams):
+            return inner_arg      # the forwarder decides the buffer itself
+        pos = fparams.index(inner_arg.id)
+        if pos < len(call.args):
+            return call.args[pos]
+        for k in call.keywords:
+            if k.arg == inner_arg.id:
+                return k.value
+        return None
+    else:
+        raise AnalysisError('unrecognised constructor expression %s' % node_src(f, 60))
+    pname, pos = _buffer_param(ix, target_cls, attr)
+    if pname is None:
+        return ast.Name(id='<%s.__init__ ignores its buffer argument>' % target_cls.qual, ctx=ast.Load())
+    if pos < len(call.args):
+        return call.args[pos]
+    for k in call.keywords:
+        if k.arg == pname:
+            return k.value
+    return None
+
+
+def rule_delegation(ctx):
+    ix = ctx.index
+    r = Rule('C49e', 'insertion_point() of a code writer builds the new writer on self.buffer.insertion_point(); insert(w) calls self.buffer.insert(w.buffer)', floor=4)
+    code = ix.mod('Code')
+    def carrier(c):
+        for a in ('buffer', 'writer'):
+            if any(a in k.self_attrs for k in ix.mro(c)):
+                return a
+        return None
+
+    def holds_buffer(c):
+        return carrier(c) is not None
+    writers = [c for c in ix.all_classes() if c.module.name.startswith('Cython.Compiler') and ix.find_method(c, 'insertion_point') and c.name != 'StringIOTree' and holds_buffer(c)]
+    others = [c.qual for c in ix.all_classes() if c.module.name.startswith('Cython.Compiler') and 'insertion_point' in c.methods and not holds_buffer(c)]
+    if others:
+        r.info('classes with an insertion_point() that wrap another writer (not checked): %s' % sorted(others))
+    for c in writers:
+        owner_c, fn = ix.find_method(c, 'insertion_point')      # own or inherited; self.create_new() is resolved in c's MRO
+        key = '%s.insertion_point' % c.qual
+        r.inst(key, sample=key)
+        rets = [n for n in walk_no_nested(fn) if isinstance(n, ast.Return) and n.value is not None]
+        if len(rets) != 1:
+            raise AnalysisError('%s: expected exactly one return' % key)
+        call = _resolve(fn, rets[0].value)
+        if not isinstance(call, ast.Call):
+            raise AnalysisError('%s does not return a constructor call' % key)
+        attr = carrier(c)
+        arg = _ctor_buffer_arg(ix, c, fn, call, attr=attr)
+        arg = _resolve(fn, arg) if arg is not None else None
+        selfname = fn.args.args[0].arg
+        ok = isinstance(arg, ast.Call) and isinstance(arg.func, ast.Attribute) and arg.func.attr == 'insertion_point' and not arg.args and \
+            isinstance(arg.func.value, ast.Attribute) and arg.func.value.attr == attr and isinstance(arg.func.value.value, ast.Name) and arg.func.value.value.id == selfname
+        if not ok:
+            r.violate(key + ':detached', owner_c.module.rel, fn.lineno,
+                      '%s builds the new writer on %s instead of self.%s.insertion_point(): what is written to the insertion point never becomes part of this writer\'s output'
+                      % (key, 'a fresh buffer' if arg is None else node_src(arg, 60), attr))
+    for c in writers:
+        got = c.methods.get('insert')
+        if got is None or carrier(c) != 'buffer':
+            continue
+        fn = got
+        key = '%s.insert' % c.qual
+        r.inst(key, sample=key)
+        selfname = fn.args.args[0].arg
+        params = [a.arg for a in fn.args.args][1:]
+        good = bad = 0
+        for n in walk_no_nested(fn):
+            if isinstance(n, ast.Call) and isinstance(n.func, ast.Attribute) and n.func.attr == 'insert' and len(n.args) == 1:
+                recv, a = _resolve(fn, n.func.value), _resolve(fn, n.args[0])
+                r_self = isinstance(recv, ast.Attribute) and recv.attr == 'buffer' and isinstance(recv.value, ast.Name) and recv.value.id == selfname
+                a_par = isinstance(a, ast.Attribute) and a.attr == 'buffer' and isinstance(a.value, ast.Name) and a.value.id in params
+                if r_self and a_par:
+                    good += 1
+                else:
+                    bad += 1
+        # the call must be unconditional
+        top = [s for s in fn.body if isinstance(s, ast.Expr) and isinstance(s.value, ast.Call) and isinstance(s.value.func, ast.Attribute) and s.value.func.attr == 'insert']
+        if good != 1 or bad or len(top) != 1:
+            r.violate(key + ':delegation', c.module.rel, fn.lineno,
+                      '%s must insert the buffer of its argument into its own buffer exactly once (self.buffer.insert(writer.buffer)); found %d such call(s), %d other insert call(s), %d unconditional'
+                      % (key, good, bad, len(top)))
+    return r
+
+
+# ------------------------------------------------------------------------------------------------------------- (f)
+ORDER_KEEPING = ('enumerate', 'list', 'tuple', 'iter')
+ORDER_CHANGING = ('sorted', 'reversed', 'set', 'frozenset')
+
+
+def rule_parts(ctx):
+    ix = ctx.index
+    r = Rule('C49f', 'every writer stored in GlobalState.parts is an insertion point of the root writer, created while iterating the layout list itself', floor=2)
+    gs = ix.cls('Code', 'GlobalState')
+    layouts = {a for a in gs.attrs if a.endswith('code_layout')}
+    if len(layouts) < 2:
+        raise AnalysisError('GlobalState code layouts not found')
+    n_store = 0
+    for name, fn in gs.methods.items():
+        selfname = fn.args.args[0].arg if fn.args.args else 'self'
+        parents = {}
+        for p in ast.walk(fn):
+            for ch in ast.iter_child_nodes(p):
+                parents[id(ch)] = p
+        for n in walk_no_nested(fn):
+            if not isinstance(n, ast.Assign):
+                continue
+            tg = [t for t in n.targets if isinstance(t, ast.Subscript) and is_self_attr(t.value, selfname) and t.value.attr == 'parts']
+            if not tg:
+                continue
+            n_store += 1
+            key = 'Code.GlobalState.%s:parts' % name
+            r.inst(key, sample='%s[%s] = %s' % (key, node_src(tg[0].slice, 30), node_src(n.value, 50)))
+            v = _resolve(fn, n.value)
+            recv = _resolve(fn, v.func.value) if isinstance(v, ast.Call) and isinstance(v.func, ast.Attribute) else None
+            is_root = recv is not None and (is_self_attr(recv, selfname) and recv.attr == 'rootwriter')
+            if not (isinstance(v, ast.Call) and v.func.attr == 'insertion_point' and is_root and not v.args):
+                r.violate(key + ':detached', gs.module.rel, n.lineno,
+                          'GlobalState.%s stores %s as a code section; a section must be rootwriter.insertion_point(), otherwise what is written to it is not part of the C file' % (name, node_src(n.value, 60)))
+                continue
+            # the enclosing loop
+            loop = parents.get(id(n))
+            while loop is not None and not isinstance(loop, ast.For):
+                if isinstance(loop, (ast.If, ast.While, ast.Try)):
+                    r.violate(key + ':conditional', gs.module.rel, n.lineno, 'GlobalState.%s creates a code section only conditionally: the order of the sections depends on the run' % name)
+                loop = parents.get(id(loop))
+            if loop is None:
+                raise AnalysisError('GlobalState.%s: code section created outside a loop over the layout' % name)
+            it = loop.iter
+            wrappers = []
+            while isinstance(it, ast.Call) and isinstance(it.func, ast.Name) and it.args:
+                wrappers.append(it.func.id)
+                it = it.args[0]
+            it = _resolve(fn, it)
+            if not (is_self_attr(it, selfname) and it.attr in layouts):
+                raise AnalysisError('GlobalState.%s: the section loop iterates %s' % (name, node_src(loop.iter, 60)))
+            for w in wrappers:
+                if w in ORDER_CHANGING:
+                    r.violate(key + ':order', gs.module.rel, loop.lineno,
+                              'GlobalState.%s creates the code sections while iterating %s: the insertion points are no longer in layout order' % (name, node_src(loop.iter, 60)))
+                elif w not in ORDER_KEEPING:
+                    raise AnalysisError('GlobalState.%s: unknown wrapper %s() around the layout list' % (name, w))
+            # the key stored is the loop variable (each section once, under its own name)
+            names = {x.id for x in ast.walk(loop.target) if isinstance(x, ast.Name)}
+            if not (isinstance(tg[0].slice, ast.Name) and tg[0].slice.id in names):
+                r.violate(key + ':key', gs.module.rel, n.lineno, 'GlobalState.%s stores the section under %s instead of the layout entry being iterated' % (name, node_src(tg[0].slice, 40)))
+    if n_store < 2:
+        raise AnalysisError('GlobalState.parts stores not found')
+    return r
+
+
+def run(ctx):
+    return rule_tree(ctx) + [rule_writers(ctx), rule_delegation(ctx), rule_parts(ctx)]
